@@ -4,7 +4,7 @@ import os
 import shutil
 
 from vlib import flow
-from vlib.common import SCRATCH, log
+from vlib.common import REPO, SCRATCH, log
 from checks import corpusgen
 from checks import C05_lib as L
 from checks import C07_lib as M
@@ -33,7 +33,9 @@ REQUIRED = ["KV.C07.count_block_indep", "KV.C07.lmplz_indep", "KV.C07.lmplz_inde
             "KV.C07.collapse_partition_indep", "KV.C07.prune_partition_indep",
             "KV.C07.lmplz_indep_vocab", "KV.C07.sort_hyp_discharged", "KV.C07.sort_hyp_discharged_code",
             "KV.C07.count_blocks_nodup", "KV.C07.chain_stream_deterministic",
-            "KV.C07.lmplz_eq_spec_discharged", "KV.C07.lmplz_indep_discharged"]
+            "KV.C07.lmplz_eq_spec_discharged", "KV.C07.lmplz_indep_discharged",
+            "KV.C07.chain_stage_stream", "KV.C07.mergeRight_partition", "KV.C07.mergeRightUnigram_partition",
+            "KV.C07.single_chain_stages", "KV.C07.lmplz_indep_final2"]
 
 OKISH = ("ok", "config")
 
@@ -336,8 +338,64 @@ def vocab_growth(ctx, tools, wd, n_corpora):
     return found
 
 
+def adder_boundary(ctx, tools, wd, consts, instances):
+    """Generator class "huge context at an adder-block boundary": the chain from AddRight to MergeRight has
+    adderOutBlockCount blocks of adderOutTotalMemory/adderOutBlockCount bytes holding one BufferEntry (HashBufferEntry
+    when the order is pruned) per context.  A context whose entry is the LAST of its block (context number = per-1 mod per
+    in context order) and which has very many distinct continuations is still being processed by MergeRight when AddRight,
+    which runs up to a whole ring ahead, wants the block back; later contexts keep AddRight busy.  Repeated runs under
+    different memory configurations must be byte-identical."""
+    try:
+        total = int(consts["adderOutTotalMemory"]); nblk = int(consts["adderOutBlockCount"])
+        ent = int(consts["bufferEntryBytes"]); hent = int(consts["hashBufferEntryBytes"])
+    except (KeyError, ValueError):
+        total, nblk, ent, hent = 32768, 2, 8, 16
+        ctx.hist("adder.geometry", "defaults (probe constants missing)")
+    found = False
+    for (pruned, K, rounds) in instances:
+        per = (total // nblk) // (hent if pruned else ent)
+        k = ctx.rng.choice([1, 1, 2]) if not pruned else 1          # which block boundary
+        nfill = k * per - 2                                          # contexts before BIG: <s> + the fillers
+        fill = [b"f%d" % i for i in range(nfill)]
+        lines = [b" ".join(fill[i:i + 6]) for i in range(0, nfill, 6)]
+        lines += [b"BIG x%d" % i for i in range(K)]
+        corpus = b"\n".join(lines) + b"\n"
+        case = dict(corpus=corpus, order=2, prune=(["0", "1"] if pruned else None), limit=None, interp=True,
+                    fallback="default", renumber=False, skip=False, label="adder-boundary per=%d K=%d" % (per, K))
+        cfgs = [("512M", []), ("512M", []), ("64M", ["--sort_block", "1M"]), ("200M", ["--block_count", "3"]),
+                ("512M", ["--block_count", "8"]), ("100M", ["--sort_block", "256K", "--minimum_block", "4K"]),
+                ("1G", [])][:rounds]
+        base = None
+        for i, (mem, extra) in enumerate(cfgs):
+            t = L.run_lmplz(tools["lmplz"], case, wd, "ab%d" % i, mem=mem, extra=extra, timeout=900)
+            ctx.count(("adder", per, K, pruned, i, mem, tuple(extra)), nontrivial=True)
+            ctx.hist("adder.class", t["cls"])
+            if t["cls"] != "ok":
+                if t["cls"] != "config":
+                    ctx.violation("lmplz fails (%s) on the adder-block-boundary corpus" % t["cls"],
+                                  {"stream": "adder-boundary", "generator": {"fillers": nfill, "continuations": K, "pruned": pruned},
+                                   "command": M.cmdline(t), "stderr": t["stderr"][-1500:]})
+                    found = True
+                continue
+            if base is None:
+                base = t
+            elif t["arpa"] != base["arpa"]:
+                d = M.first_diff({"arpa": base["arpa"]}, {"arpa": t["arpa"]})
+                ctx.violation("repeated runs differ on a corpus with a huge context at an adder-block boundary "
+                              "(context number %d of order 2, %d continuations): first difference %r" % (k * per - 1, K, d),
+                              {"stream": "adder-boundary", "generator": {"fillers": nfill, "continuations": K, "pruned": pruned,
+                               "recipe": "fillers f0..f{n-1} six per line, then K lines 'BIG x<i>'"},
+                               "commands": [M.cmdline(base), M.cmdline(t)], "first_difference": d})
+                found = True
+                break
+    return found
+
+
 def run(ctx):
-    problems, consts = flow.proof_phase(ctx, "C07", required=REQUIRED, drivers=[])
+    problems, consts = flow.proof_phase(ctx, "C07", probe="probe_C07.cc",
+                                        probe_flags=['-DREPO_DIR="%s"' % REPO, "-no-pie", "-static-libgcc",
+                                                     "-Wl,--unresolved-symbols=ignore-all", "-Wl,-z,lazy"],
+                                        required=REQUIRED, drivers=[])
     wd = os.path.join(SCRATCH, "c07_%d" % os.getpid())
     shutil.rmtree(wd, ignore_errors=True)
     os.makedirs(wd)
@@ -370,6 +428,10 @@ def run(ctx):
                 # n_cfg configurations + n_rep repetitions for each of the two output kinds (see variants)
                 if one_corpus(ctx, wrappers, case, cwd, n_cfg, n_rep, kind, timeout=(900 if kind == "big" else 120)):
                     found = True
+        # (pruned?, continuations, runs)
+        inst = [(False, 120000, 6)] if ctx.tier == "quick" else [(False, 300000, 7), (False, 150000, 6), (True, 300000, 6)]
+        if adder_boundary(ctx, tools, os.path.join(wd, "adder"), consts, inst):
+            found = True
         vwd = os.path.join(wd, "vocab")
         if vocab_growth(ctx, tools, vwd, 45 if ctx.tier == "quick" else 400):
             found = True
